@@ -5,7 +5,7 @@
 #   repository's own test suite still passes with it; then runs the quick
 #   check of PROP against the patched worktree.  Writes /verif/seeded/<name>/.
 set -u
-SEED=$(realpath "$1"); PROP=$2; NAME=$3
+SEED=$(realpath "$1"); PROP=$2; NAME=$3; shift 3; EXTRA="$*"
 VERIF=$(cd "$(dirname "$0")/.." && pwd)
 OUT="$VERIF/seeded/$NAME"; mkdir -p "$OUT"
 W=$(mktemp -d /tmp/seedw-XXXXXX); rmdir "$W"
@@ -27,10 +27,17 @@ mkdir -p "$W.ev" "$W.rp"
 (cd "$VERIF" && VERIF_REPO="$W" VERIF_EVIDENCE_DIR="$W.ev" VERIF_REPLAY_DIR="$W.rp" ./check "$PROP" --tier quick > "$OUT/check_quick.log" 2>&1); rc=$?
 sigs=$(grep -c '^VIOLATION' "$OUT/check_quick.log")
 first=$(grep -m3 'signature=' "$OUT/check_quick.log" | sed 's/^ *//' | tr '\n' ';' | cut -c1-400)
+extra_json="{}"
+for XP in $EXTRA; do
+  (cd "$VERIF" && VERIF_REPO="$W" VERIF_EVIDENCE_DIR="$W.ev" VERIF_REPLAY_DIR="$W.rp" ./check "$XP" --tier quick > "$OUT/check_quick_$XP.log" 2>&1); xrc=$?
+  xfirst=$(grep -m2 'signature=' "$OUT/check_quick_$XP.log" | sed 's/^ *//' | tr '\n' ';' | cut -c1-300)
+  extra_json=$(/venv/bin/python -c "import json,sys; d=json.loads(sys.argv[1]); d[sys.argv[2]]={'exit':int(sys.argv[3]),'first_signatures':sys.argv[4]}; print(json.dumps(d))" "$extra_json" "$XP" "$xrc" "$xfirst")
+done
 cp "$SEED/demo.py" "$OUT/demo.py"; cp "$SEED/notes.md" "$OUT/notes.md" 2>/dev/null
-/venv/bin/python - "$OUT" "$PROP" "$NAME" "$applied" "$demo_clean" "$demo_patched" "$tests" "$rc" "$sigs" "$first" <<'EOF'
+/venv/bin/python - "$OUT" "$PROP" "$NAME" "$applied" "$demo_clean" "$demo_patched" "$tests" "$rc" "$sigs" "$first" "$extra_json" <<'EOF'
 import json, sys, subprocess
-out, prop, name, applied, dc, dp, tests, rc, sigs, first = sys.argv[1:]
+out, prop, name, applied, dc, dp, tests, rc, sigs, first, extra = sys.argv[1:]
+extra = json.loads(extra)
 head = subprocess.check_output(["git", "-C", "/repo", "log", "-1", "--format=%h"]).decode().strip()
 meta = {"property": prop, "name": name, "repo_head": head,
         "patch_applied": applied,
@@ -40,6 +47,8 @@ meta = {"property": prop, "name": name, "repo_head": head,
         "check_quick_exit": int(rc), "check_quick_violation_lines": int(sigs),
         "check_quick_first_signatures": first,
         "caught_by_quick": int(rc) == 1 and int(sigs) > 0,
+        "other_checks_quick": extra,
+        "caught_by_other_checks": sorted(k for k, v in extra.items() if v["exit"] == 1),
         "what_ran": "scratch worktree of /repo HEAD: demo.py on clean tree, git apply patch.diff, rebuild, demo.py, full pytest suite, ./check %s --tier quick with VERIF_REPO=<worktree>" % prop,
         "needs_to_manifest": "see notes.md"}
 json.dump(meta, open(out + "/meta.json", "w"), indent=1)
